@@ -34,6 +34,8 @@ checks = []
 for pid, (text, tech) in P.items():
     if pid in TABLES:
         tech += " + constant tables regenerated from the Python source on every run (harness/tables.py) and proved equal to the model's (Lemmas/TablesAgree)"
+    if pid != "C18":
+        tech += " + effect-summary scope obligation (Lemmas/Scope/%s: the summary regenerated from the source shows no shared or hidden state in this property's modules)" % pid
     checks.append({
         "property_id": pid,
         "quick_cmd": f"./check {pid} --tier quick",
